@@ -347,7 +347,12 @@ class SigmaCollection:
         # resolving references (we'll do a single resolution pass after merge).
         merged = cls.merge(sigma_collections, resolve_references=False)
         if resolve_references:
-            merged.resolve_rule_references()
+            try:
+                merged.resolve_rule_references()
+            except SigmaError as e:  # an unresolvable reference is collected as well
+                if not collect_errors:
+                    raise
+                merged.errors.append(e)
         return merged
 
     @classmethod
